@@ -156,6 +156,9 @@ func main() {
 			imp += ")\n"
 			src = src[:end] + imp + src[end:]
 		}
+		if needVtime {
+			src += "\nvar _ time.Duration // keeps the import used after the Now() rewrite\n"
+		}
 		dst := filepath.Join(*out, filepath.Base(names[i]))
 		os.WriteFile(dst, []byte(src), 0o644)
 		overlay[names[i]] = dst
